@@ -11,6 +11,9 @@ import (
 	"fmt"
 	"strings"
 
+	"google.golang.org/protobuf/encoding/protowire"
+	"google.golang.org/protobuf/proto"
+
 	"github.com/canopy-network/canopy/lib"
 	"github.com/canopy-network/canopy/lib/crypto"
 
@@ -281,7 +284,8 @@ func Run(o *drv.Out) {
 			signCom := com
 			// deviations applied BEFORE signing (honest signers sign the deviated content: still "correctly bound")
 			// and AFTER signing (re-targeting). Choose by variant.
-			dev := r.Intn(24)
+			dev := r.Intn(25)
+			dupHeader := false
 			if v == 0 {
 				dev = -1 // the valid pair itself
 			}
@@ -326,6 +330,9 @@ func Run(o *drv.Out) {
 				case 8:
 					view.RootHeight = R + 2
 					notes = append(notes, "no-committee")
+				case 24: // non-canonical block bytes carrying TWO header fields (decoded block = the second one)
+					dupHeader = true
+					notes = append(notes, "dup-header")
 				case 9:
 					if r.Intn(2) == 0 {
 						prev.Header.ChainId = chain + 1
@@ -341,6 +348,25 @@ func Run(o *drv.Out) {
 			pre()
 			hdr.SetHash()
 			blockBytes, _ := lib.Marshal(blk)
+			decodedHash := append([]byte{}, hdr.Hash...) // hash of the header a decoder of blockBytes ends up with
+			if dupHeader {
+				h1, _ := lib.Marshal(hdr)
+				alt := proto.Clone(hdr).(*lib.BlockHeader)
+				alt.StateRoot = h32(0x66)
+				alt.SetHash()
+				h2, _ := lib.Marshal(alt)
+				var bz []byte
+				bz = protowire.AppendTag(bz, 1, protowire.BytesType)
+				bz = protowire.AppendBytes(bz, h1)
+				bz = protowire.AppendTag(bz, 1, protowire.BytesType)
+				bz = protowire.AppendBytes(bz, h2)
+				for _, t := range blk.Transactions {
+					bz = protowire.AppendTag(bz, 2, protowire.BytesType)
+					bz = protowire.AppendBytes(bz, t)
+				}
+				blockBytes = bz
+				decodedHash = append([]byte{}, alt.Hash...)
+			}
 			qc := &lib.QuorumCertificate{Header: view, Block: blockBytes, BlockHash: append([]byte{}, hdr.Hash...), Results: res, ResultsHash: res.Hash()}
 			signedPay := payStr(qc.Header, qc.BlockHash, qc.ResultsHash, qc.ProposerKey)
 			sigBz, bitmap := sign(signCom, idxs, qc.SignBytes())
@@ -373,7 +399,7 @@ func Run(o *drv.Out) {
 					txs += len(t)
 				}
 				d.blk = fmt.Sprintf("%d,%d,%d,%d,%d,%d,%s,%s,%d,%d", b2i(blkDecodes), b2i(blkHeaderOK), b2i(blkLastQCNet), b2i(blkLastQC), hdr.NetworkId, hdr.Height,
-					drv.Hex(hdr.Hash), drv.Hex(hdr.Hash), txs, len(blockBytes))
+					drv.Hex(hdr.Hash), drv.Hex(decodedHash), txs, len(blockBytes))
 			}
 			if qc.Results == nil {
 				d.res = "nil"
@@ -453,7 +479,7 @@ func Run(o *drv.Out) {
 				if qc.Header.Phase != lib.Phase_PRECOMMIT_VOTE || qc.Header.NetworkId != nn.net || qc.Header.ChainId != nn.chain || qc.Header.Height != nn.height {
 					o.Fail("C02:commit-wrongly-bound", "commit for another phase/network/chain/height", map[string]any{"op": op})
 				}
-				if !bytes.Equal(qc.BlockHash, hdr.Hash) || !bytes.Equal(qc.ResultsHash, res.Hash()) {
+				if !bytes.Equal(qc.BlockHash, decodedHash) || !bytes.Equal(qc.ResultsHash, res.Hash()) {
 					o.Fail("C02:commit-hash-mismatch", "certificate hashes do not name the carried block/results", map[string]any{"op": op})
 				}
 			}
